@@ -351,16 +351,17 @@ func (gi *gitlabImporter) ensurePerson(repo *cache.RepoCache, id int) (*cache.Id
 		return nil, err
 	}
 
+	// what the tracker holds is arbitrary text: make it fit for an identity
 	i, err = repo.Identities().NewRaw(
-		user.Name,
-		user.PublicEmail,
-		user.Username,
+		text.CleanupOneLine(user.Name),
+		text.CleanupOneLine(user.PublicEmail),
+		text.CleanupOneLine(user.Username),
 		user.AvatarURL,
 		nil,
 		map[string]string{
 			// because Gitlab
 			metaKeyGitlabId:    strconv.Itoa(id),
-			metaKeyGitlabLogin: user.Username,
+			metaKeyGitlabLogin: text.CleanupOneLine(user.Username),
 		},
 	)
 	if err != nil {
